@@ -24,8 +24,14 @@ let oracle (w : z) (seg : n list) : z * z =
   | v :: _ when String.length v >= 3 && v.[0] = 'V' && String.contains v '=' -> (z_of_int 0, z_of_int 0)   (* assignment only *)
   | "cd" :: _ -> (z_of_int 1, z_of_int 1)                (* cd to a missing directory *)
   | "nosuchcmd_zz" :: _ -> (z_of_int 127, z_of_int 127)  (* command not found *)
-  | _ :: ctl :: _ when String.length ctl >= 2 && String.sub ctl 0 2 = "@x" ->
-      let st = String.sub ctl 2 (String.length ctl - 2) in
+  | ws when List.mem "&" ws && List.nth ws (List.length ws - 1) = "&" -> (z_of_int 0, z_of_int 0)   (* background: goes on at once, status 0 *)
+  | _ :: ctl :: _ when String.length ctl >= 2 && ctl.[0] = '@'
+                       && List.exists (fun a -> String.length a >= 1 && a.[0] = 'x')
+                            (String.split_on_char ',' (String.sub ctl 1 (String.length ctl - 1))) ->
+      (* actions are comma separated; x<N> = exit status N, x$? = the previous status *)
+      let acts = String.split_on_char ',' (String.sub ctl 1 (String.length ctl - 1)) in
+      let xa = List.find (fun a -> String.length a >= 1 && a.[0] = 'x') acts in
+      let st = String.sub xa 1 (String.length xa - 1) in
       let v = if st = "$?" then int_of_z w else (try int_of_string st with _ -> 127) in
       (z_of_int v, z_of_int v)
   | _ -> (z_of_int 0, z_of_int 0)
